@@ -399,6 +399,16 @@ func c17Shapes() []c17Shape {
 			}
 			return []hEntry{hEnt("a", e.file("a-file")), hEnt("a/b", e.file("under-file"))}, []string{"a/b"}
 		}},
+		{label: "symlink entry created through an earlier symlink", wrote: true, dir: func(e *hEnv, d int) ([]hEntry, []string) {
+			// l -> a directory outside; then an entry l/<name> that is itself a SYMLINK (creating a link
+			// follows the links in the path leading to it), and one in a sub-directory naming ../<name>
+			l := e.uniq("l")
+			ents := []hEntry{hEnt(l, hSym(e.dirTarget(d))), hEnt(l+"/planted", hSym(e.escTarget(d))), hEnt(l+"/planted2", hSym("anything"))}
+			if e.r.Intn(2) == 0 {
+				ents = append(ents, hEnt("sub", hDir(hEnt("../"+l+"/planted3", hSym("x")))))
+			}
+			return ents, []string{l, l + "/planted"}
+		}},
 		{label: "name with separator through symlink", wrote: true, dir: func(e *hEnv, d int) ([]hEntry, []string) {
 			t := e.dirTarget(d)
 			ents := []hEntry{hEnt("d", hSym(t))}
@@ -462,7 +472,8 @@ func c17Shapes() []c17Shape {
 			if e.r.Intn(4) == 0 { // through a chain of two links
 				return []hEntry{hEnt("y", hSym(e.fileTarget(d))), hEnt(nm, hSym("y")), hEnt(e.respell(nm), e.file("over"))}, []string{nm}
 			}
-			return []hEntry{hEnt(nm, hSym(e.fileTarget(d))), hEnt(e.respell(nm), e.file("over"))}, []string{nm}
+			// either entry may be spelled otherwise (./f, q/../f, f/.): the same place all the same
+			return []hEntry{hEnt(e.respell(nm), hSym(e.fileTarget(d))), hEnt(e.respell(nm), e.file("over"))}, []string{nm}
 		}},
 		{label: "same-name symlink-then-file, target looks local but runs through another symlink", wrote: true, dir: func(e *hEnv, d int) ([]hEntry, []string) {
 			// hop 1: a link to a directory above out/; hop 2: a link whose target has neither a leading
@@ -484,7 +495,11 @@ func c17Shapes() []c17Shape {
 		{label: "same-name symlink-then-directory", wrote: true, dir: func(e *hEnv, d int) ([]hEntry, []string) {
 			nm := c17Pool[e.r.Intn(3)]
 			inner := hDir(hEnt("file", e.file("indir")), hEnt("victim.txt", e.file("indir")), hEnt("newsub", hDir(hEnt("deep.txt", e.file("deep")))))
-			return []hEntry{hEnt(nm, hSym(e.dirTarget(d))), hEnt(e.respell(nm), inner)}, []string{nm, nm + "/file"}
+			tgt := e.dirTarget(d)
+			if e.r.Intn(4) == 0 {
+				tgt = up(d) + "OUT/" + nm // the same path as the entry's own, up to letter case
+			}
+			return []hEntry{hEnt(nm, hSym(tgt)), hEnt(e.respell(nm), inner)}, []string{nm, nm + "/file"}
 		}},
 		{label: "same-name symlink-then-symlink", wrote: true, dir: func(e *hEnv, d int) ([]hEntry, []string) {
 			nm := c17Pool[e.r.Intn(3)]
@@ -815,6 +830,9 @@ func c17MakeBox(r *rand.Rand, state string) c17Box {
 	must(os.MkdirAll(filepath.Join(S, "work"), 0o755))
 	must(os.MkdirAll(filepath.Join(T, "p0", "tmp"), 0o755)) // TMPDIR of the tool: watched like everything else outside out/
 	must(os.MkdirAll(filepath.Join(S, "victimdir"), 0o755))
+	for _, nm := range c17Pool { // S/OUT/<name>: equal to out/<name> up to letter case, and outside
+		must(os.MkdirAll(filepath.Join(S, "OUT", nm), 0o755))
+	}
 	must(os.WriteFile(filepath.Join(S, "victim.txt"), []byte("sentinel: must never change\n"), 0o644))
 	must(os.WriteFile(filepath.Join(S, "victimdir", "file"), []byte("sentinel in a directory\n"), 0o600))
 	// a deeper sentinel tree (entry names with several separators find every intermediate component there)
